@@ -63,8 +63,10 @@ func (c *Ctx) ValidateTrace(module, cfg string, records []any, opts ...TLCOpt) (
 }
 
 func (c *Ctx) ValidateTraceFile(module, cfg, path string, n int, opts ...TLCOpt) (*TraceFailure, error) {
-	all := append([]TLCOpt{SpecSubdir("trace"), Env("VERIF_TRACE", path), Workers(1), Stack(256)}, opts...)
-	res, err := c.RunTLC("trace-validation", module, cfg, all...)
+	// the runner copies spec/*.tla next to spec/trace/<cfg>, so trace specs can
+	// EXTEND / INSTANCE the design modules
+	all := append([]TLCOpt{Env("VERIF_TRACE", path), Workers(1), Stack(256)}, opts...)
+	res, err := c.RunTLC("trace-validation", module, "trace/"+cfg, all...)
 	if err != nil {
 		return nil, err
 	}
